@@ -426,6 +426,9 @@ func (rl *Shell) viMatchBracket() {
 	switch {
 	case len(split) == 0:
 		return
+	case index >= len(split):
+		// Unmatched closing bracket: no block was found.
+		return
 	case pos == 0:
 		adjust = len(split[index])
 	default:
